@@ -110,6 +110,24 @@ Proof.
   eapply dev_key_as_map_retyped; eauto.
 Qed.
 
+(* KNOWN FINDING (open): a deviation that never reaches the comparator.  When
+   the target specifies metadata.annotations and the live value is retyped to a
+   truthy non-map, `_extract_last_applied` raises AttributeError before
+   validate_match is called; the exception leaves reconcile_krm_resource and no
+   correction is made, whatever the policy.  (This is why C05_drift_corrected
+   below carries the hypothesis that the last-applied annotation of the
+   deviated object can still be read.) *)
+Theorem C05_annotations_retype_refuted :
+  exists t l l' p,
+    wf t = true /\ vmatch t l None false = O_match /\ deviates t false p l l' /\
+    vmatch t l' None false = O_false /\
+    forall u, tail {| tc_should_own := false; tc_owner_ref := JMap []; tc_update := u |} t l' None
+              = Some (TRaised ExAttributeError, []).
+Proof.
+  exists wg_target, wg_live, wg_live', [SKey "metadata"; SKey "annotations"].
+  exact annotations_retype_raises.
+Qed.
+
 Section Dispatch.
   (* "... a managing ResourceFunction performs exactly the action its update
      policy prescribes: one patch carrying the full target (patch), one delete
@@ -263,6 +281,7 @@ Print Assumptions C05_set_member_retype_detected.
 Print Assumptions C05_set_membership_tells_bool_from_int.
 Print Assumptions C05_as_map_retype_detected.
 Print Assumptions C05_as_map_retype_corrected.
+Print Assumptions C05_annotations_retype_refuted.
 Print Assumptions C05_dispatch.
 Print Assumptions C05_patch_payload.
 Print Assumptions C05_patch_payload_owner.
